@@ -19,6 +19,7 @@ CURSOR_READS = ("std::io::BufRead::read_until", "std::io::Read::read_to_end", "<
 FIRST_LAST = ("core::slice::<impl [T]>::first", "core::slice::<impl [T]>::last")
 INDEX_CALLS = ("<std::vec::Vec<T, A> as std::ops::Index<I>>::index", "<std::vec::Vec<T, A> as std::ops::IndexMut<I>>::index_mut",
                "core::slice::index::<impl std::ops::Index<I> for [T]>::index", "core::array::<impl std::ops::Index<I> for [T; N]>::index",
+               "std::array::<impl std::ops::Index<I> for [T; N]>::index", "std::array::<impl std::ops::IndexMut<I> for [T; N]>::index_mut",
                "std::ops::Index::index")
 CAPACITY_SINKS = re.compile(r"std::vec::Vec::<T>::with_capacity|std::vec::Vec::<T, A>::(with_capacity_in|reserve|reserve_exact|resize)|std::vec::from_elem|std::string::String::(with_capacity|reserve|reserve_exact)|std::str::<impl str>::repeat|std::slice::<impl \\[T\\]>::repeat|std::collections::HashMap::<K, V>::with_capacity|std::collections::VecDeque::<T>::with_capacity")
 ASSERT_KINDS = ("Overflow", "OverflowNeg", "DivisionByZero", "RemainderByZero", "BoundsCheck")
@@ -177,6 +178,47 @@ class Inventory:
         return out
 
     # ---- classification ----
+    def _text_nonempty_by_construction(self, fn, call_block):
+        """the `chars()` consumed by the iterator call in `call_block` runs over a text that is, through length-preserving conversions only,
+        a `vec![x; n]` with constant n >= 1 that nothing resizes - looked at with the private helpers inlined (block ids of the caller are
+        unchanged by inlining, A11)"""
+        from . import loops as L
+        body = self.ctx.inl(fn)
+        du = du_of(body)
+        blk = next((b for b in body.blocks if b["id"] == call_block), None)
+        if blk is None or blk["term"]["k"] != "call" or not blk["term"]["args"]:
+            return False
+        it = du.val_operand(blk["term"]["args"][0])
+        tgt = val_ref_target(du, it)
+        if tgt is not None:
+            it = du.val_place(du.canon(tgt))
+        if not (it[0] == "call" and (it[1] or "").endswith("impl str>::chars") and it[2]):
+            return False
+        text = it[2][0]
+        for b in body.blocks:
+            t = b["term"]
+            if b["cleanup"] or t["k"] != "call" or callee_name(t) != "std::vec::from_elem" or len(t["args"]) != 2 or t["dest"]["p"]:
+                continue
+            n = const_int(strip_casts(du.val_operand(t["args"][1])))
+            B = t["dest"]["l"]
+            if n is None or n < 1 or len(du.defs.get(B, [])) != 1:
+                continue
+            if not L.derives_length_preserving(du, text, B):
+                continue
+            # nothing may change the vector's length: no call receives it (or what it was moved into) as `&mut Vec<u8>`
+            resized = False
+            for _, t2 in body.calls():
+                if re.search(r"::(deref_mut|index_mut|as_mut_slice|as_mut|iter_mut|fill|len|is_empty)$", callee_name(t2) or ""):
+                    continue        # views of the elements: the length stays
+                for a, ty in zip(t2["args"], t2.get("arg_tys", [])):
+                    if ty.replace("&mut ", "&mut").startswith("&mutstd::vec::Vec<") and a.get("k") in ("copy", "move"):
+                        r = val_ref_target(du, du.val_operand(a))
+                        if r is not None and (du.canon(r)[0] == B or L.derives_length_preserving(du, ("place", du.canon(r)), B)):
+                            resized = True
+            if not resized:
+                return True
+        return False
+
     def _classify_unwrap(self, s, fn, du, g, pk, want_succ, bid):
         root, inv = optres_root(du, pk)
         truth = want_succ != inv
@@ -222,6 +264,10 @@ class Inventory:
                             s.status, s.reason = "guarded", "index %d < length of %s established by a dominating length test" % (k, fmt_place(fn, tgt))
                             return
                         s.extra["needs"] = "len(%s) > %d" % (fmt_place(fn, tgt), k)
+                if truth and re.fullmatch(r"<std::str::Chars<'a> as std::iter::(Iterator>::(last|next)|DoubleEndedIterator>::next_back)", name or "") and args \
+                        and self._text_nonempty_by_construction(fn, d[1]):
+                    s.status, s.reason = "guarded", "first / last character of a text that is exactly the bytes of a buffer created with a constant length >= 1 (vec![x; n] filled by read_exact, accepted by from_utf8)"
+                    return
                 if name in FIRST_LAST and args:
                     tgt = val_ref_target(du, du.val_operand(args[0]))
                     if tgt is not None:
